@@ -213,6 +213,8 @@ func drawC02(t *rapid.T) *c02plan {
 		p.Kind = "bytes"
 		p.Toks = nil
 	}
+	// a tty that is polled (Read returns 0 bytes every 10 ms when idle)
+	p.Cfg.Polling = rapid.IntRange(0, 5).Draw(t, "polling") == 0
 	p.Burst = rapid.SampledFrom([]int{0, 0, 60, 200}).Draw(t, "burstms")
 	p.Suspend = rapid.IntRange(0, 3).Draw(t, "suspend") == 0
 	ncut := rapid.IntRange(1, 11).Draw(t, "ncuts")
